@@ -76,6 +76,10 @@ func (w *World) coreStep(st *Step, exp *Expect) {
 		w.applyUndo(st)
 		w.checkRoots(st.Post)
 	case "prove":
+		if exp == nil {
+			// a query recorded inside the history: the step carries the canonical proof
+			exp = &Expect{Pf: st.Pf}
+		}
 		w.applyProve(st, exp)
 		return
 	case "restore":
